@@ -29,6 +29,9 @@ def make_judges(ctx):
             return
         x = ev.pre[0] if ev.pre else None
         n = ev.args[0] if ev.args else None
+        ntype = type(n).__name__
+        if isinstance(n, np.ndarray) and n.ndim == 0 and n.dtype.kind in 'iu':
+            n = n.item()
         if x is None or x.is_complex or x.scaled or not isinstance(n, (int, np.integer)) or isinstance(n, bool):
             ctx.skip('shift:operand outside domain')
             return
@@ -99,13 +102,15 @@ def make_judges(ctx):
             sample = {'op': ev.op, 'count': n, 'mode': mode, 'x': x.describe(), 'result': res.describe()}
         ctx.judged(('L' if left else 'R', mode, 's' if x.signed else 'u', cnt, 'neg' if neg else 'pos', tz < n, len(x.shape), overflowed), nontriv, sample, elements=len(x.codes))
         ctx.floor_hit(('L' if left else 'R', mode, cnt))
+        if ntype != 'int':
+            ctx.floor_hit(('count-type', 'numpy', 'L' if left else 'R', mode))
         for p in U.u2_frame_problems(ev, Fxp):
             ctx.violation('operand_changed', p[1], ev, extra=p[2])
     return [shift_judge]
 
 
 def floors(tier):
-    return [(d, m, c) for d in 'LR' for m in ('expand', 'trunc', 'keep') for c in ('0', '<w', '>=w')]
+    return [(d, m, c) for d in 'LR' for m in ('expand', 'trunc', 'keep') for c in ('0', '<w', '>=w')] + [('count-type', 'numpy', d, m) for d in 'LR' for m in ('expand', 'trunc', 'keep')]
 
 
 def cases(tier, seed):
@@ -178,5 +183,7 @@ def run_case(case, ctx):
         x = G.historied(Fxp, x, rng)[0]
     for n in sorted(set([0, 1, rng.randint(0, w + 3), rng.randint(0, w + 3), w - 1, w, min(w + 3, 62 - w)])):
         if 0 <= n and w + n <= 62:
-            _try(lambda: x << n)
-            _try(lambda: x >> n)
+            # the count as a python integer or as a NumPy integer (np.int64, np.uint8, an element of np.arange, a 0-d array)
+            nn = n if (i + n) % 3 else rng.choice([np.int64(n), np.int32(n), np.uint8(n), np.arange(n + 1)[n], np.array(n)])
+            _try(lambda: x << nn)
+            _try(lambda: x >> nn)
